@@ -512,6 +512,13 @@ func ruleC15Returns(p *Program, r *Run) {
 					}
 				}
 			}
+			// return []string{source} where the source is known to contain no semicolon at all: no character but
+			// ';' yields a semicolon token (C09/tables, part of this check), so there is nothing to cut
+			if !good && len(v.Results) == 1 {
+				if cl, ok := ast.Unparen(v.Results[0]).(*ast.CompositeLit); ok && len(cl.Elts) == 1 && objOf(info, cl.Elts[0]) == source && p.underNoSemicolon(v, source) {
+					good = true
+				}
+			}
 			if !good {
 				okRet = false
 				why = "the return at " + p.Pos(v.Pos()) + " returns " + exprStr(v.Results[0]) + ", not the list of token-bounded pieces"
@@ -667,4 +674,97 @@ func ruleC10Clause(p *Program, r *Run) {
 	}
 	e.FlushSites(r)
 	r.Floor("C10/clause", 2)
+}
+
+// underNoSemicolon: the statement is only reached when the string variable is known not to contain a ';' - it sits
+// in the then-branch of an if whose condition implies `!strings.Contains(v, ";")` (Contains, ContainsRune,
+// ContainsAny, Index*, Count forms).
+func (p *Program) underNoSemicolon(n ast.Node, v types.Object) bool {
+	info := p.Info
+	var child ast.Node = n
+	for cur := p.Parent(n); cur != nil; child, cur = cur, p.Parent(cur) {
+		if _, isFn := cur.(*ast.FuncDecl); isFn {
+			return false
+		}
+		ifs, ok := cur.(*ast.IfStmt)
+		if !ok || ifs.Body != child {
+			continue
+		}
+		if p.impliesNoSemicolon(info, ifs.Cond, v) || p.impliesNoSemicolon(info, p.ResolveDeep(ifs.Cond), v) {
+			return true
+		}
+	}
+	return false
+}
+
+func (p *Program) impliesNoSemicolon(info *types.Info, cond ast.Expr, v types.Object) bool {
+	cond = ast.Unparen(cond)
+	isSemi := func(x ast.Expr) bool {
+		if s, ok := constString(info, x); ok {
+			return s == ";"
+		}
+		if n, ok := constInt(info, x); ok {
+			return n == ';'
+		}
+		return false
+	}
+	search := func(x ast.Expr, names ...string) bool {
+		call, ok := ast.Unparen(x).(*ast.CallExpr)
+		if !ok || len(call.Args) != 2 || objOf(info, call.Args[0]) != v || !isSemi(call.Args[1]) {
+			return false
+		}
+		f := Callee(info, call)
+		if f == nil || f.Pkg() == nil || f.Pkg().Path() != "strings" {
+			return false
+		}
+		for _, n := range names {
+			if f.Name() == n {
+				return true
+			}
+		}
+		return false
+	}
+	// len(Scan(v)) == 0: no tokens at all
+	noTokens := func(x ast.Expr) bool {
+		call, ok := ast.Unparen(x).(*ast.CallExpr)
+		if !ok || !IsBuiltinCall(info, call, "len") || len(call.Args) != 1 {
+			return false
+		}
+		sc, ok := ast.Unparen(p.DefExpr(call.Args[0])).(*ast.CallExpr)
+		if !ok || len(sc.Args) != 1 || objOf(info, sc.Args[0]) != v {
+			return false
+		}
+		f := Callee(info, sc)
+		return f != nil && f.Pkg() != nil && f.Pkg().Path() == PathParser && fnName(f) == "Scan"
+	}
+	if b, ok := cond.(*ast.BinaryExpr); ok {
+		if z, isC := constInt(info, b.Y); isC && noTokens(b.X) && (b.Op == token.EQL && z == 0 || b.Op == token.LSS && z == 1 || b.Op == token.LEQ && z == 0) {
+			return true
+		}
+	}
+	switch c := cond.(type) {
+	case *ast.UnaryExpr:
+		if c.Op == token.NOT {
+			return search(c.X, "Contains", "ContainsRune", "ContainsAny")
+		}
+	case *ast.BinaryExpr:
+		switch c.Op {
+		case token.LAND:
+			return p.impliesNoSemicolon(info, c.X, v) || p.impliesNoSemicolon(info, c.Y, v)
+		case token.LSS:
+			if z, ok := constInt(info, c.Y); ok && z == 0 {
+				return search(c.X, "Index", "IndexByte", "IndexRune", "IndexAny", "LastIndex", "LastIndexByte")
+			}
+		case token.EQL:
+			if z, ok := constInt(info, c.Y); ok {
+				if z == -1 {
+					return search(c.X, "Index", "IndexByte", "IndexRune", "IndexAny", "LastIndex", "LastIndexByte")
+				}
+				if z == 0 {
+					return search(c.X, "Count")
+				}
+			}
+		}
+	}
+	return false
 }
